@@ -265,6 +265,11 @@ func init() {
 	h["verifEventCount"] = func(e *Exec, c *frame, fn *ssa.Function, a []Value) Value {
 		return e.intT(int64(e.events()[strArg(e, a[0])]))
 	}
+	h["verifLimiterAlwaysGrants"] = func(e *Exec, c *frame, fn *ssa.Function, a []Value) Value {
+		e.hostState["limiter.always"] = true
+		e.stubUsed("limiter configured by the harness to always grant (send budget is not the subject of this entry)")
+		return nil
+	}
 	h["verifEvent"] = func(e *Exec, c *frame, fn *ssa.Function, a []Value) Value {
 		e.event(strArg(e, a[0]))
 		return nil
@@ -340,7 +345,7 @@ func init() {
 	note := "golang.org/x/time/rate.Limiter: Allow/Wait return an arbitrary outcome (token-bucket arithmetic not encoded); grants, denials and returned tokens are counted"
 	reg(lim+".Allow", func(e *Exec, c *frame, fn *ssa.Function, a []Value) Value {
 		e.stubUsed(note)
-		if e.muPtrOK(a[0]); e.branch(e.freshVar("lim_allow", 0)) {
+		if e.muPtrOK(a[0]); e.limiterGrants() || e.branch(e.freshVar("lim_allow", 0)) {
 			e.event("limiter.grant")
 			return e.tt.True
 		}
@@ -373,7 +378,7 @@ func init() {
 			e.event("limiter.waiterr")
 			return co.err
 		}
-		if e.branch(e.freshVar("lim_wait_ok", 0)) {
+		if e.limiterGrants() || e.branch(e.freshVar("lim_wait_ok", 0)) {
 			e.event("limiter.grant")
 			return Iface{}
 		}
@@ -382,6 +387,12 @@ func init() {
 	}
 	reg(lim+".Wait", wait)
 	reg(lim+".WaitN", wait)
+}
+
+// limiterGrants: a harness whose subject is not the send budget may ask for a limiter that always grants.
+func (e *Exec) limiterGrants() bool {
+	b, _ := e.hostState["limiter.always"].(bool)
+	return b
 }
 
 func (e *Exec) muPtrOK(v Value) bool {
